@@ -796,6 +796,24 @@ fn run_task(task: &Task, shared: Option<&Arc<Valid<Schema>>>, shared_ids: &BTree
         Task::LineCol(k) => {
             let schema = shared.expect("shared schema");
             let mut output = String::new();
+            // a range lookup and the two point lookups at its ends must tell the same story,
+            // descriptions included (one of them holds a U+2028)
+            for def in schema.types.values() {
+                let spans = [def.location(), def.description().and_then(|d| d.location())];
+                for span in spans.into_iter().flatten() {
+                    let Some(file) = schema.sources.get(&span.file_id()) else { continue };
+                    let range = span.line_column_range(&schema.sources);
+                    let ends = (file.get_line_column(span.offset()), file.get_line_column(span.end_offset()));
+                    if let (Some(r), (Some(a), Some(b))) = (&range, ends) {
+                        if (r.start.line, r.start.column, r.end.line, r.end.column) != (a.line, a.column, b.line, b.column) {
+                            output.push_str(&format!(
+                                "LINE/COLUMN RANGE DISAGREES WITH POINT LOOKUPS for {}..{}: range {}:{}..{}:{} points {}:{}..{}:{}\n",
+                                span.offset(), span.end_offset(), r.start.line, r.start.column, r.end.line, r.end.column, a.line, a.column, b.line, b.column
+                            ));
+                        }
+                    }
+                }
+            }
             // every k-th definition's name and fields: offsets on many different lines of one file
             for (i, (name, def)) in schema.types.iter().enumerate() {
                 if i % (*k + 1) != 0 {
@@ -1186,6 +1204,9 @@ fn exec_case_inner(case: &Case) -> CaseResult {
                         viol("pack_roundtrip", r.output.clone());
                     }
                     continue;
+                }
+                if let Some(line) = r.output.lines().find(|l| l.starts_with("LINE/COLUMN RANGE DISAGREES")) {
+                    viol("linecol_inconsistent", line.to_string());
                 }
                 if let Some(line) = r.output.lines().find(|l| l.starts_with("DERIVED SCHEMA BEHAVES UNLIKE")) {
                     viol("derived_schema_differs_from_text_built", line.to_string());
